@@ -129,6 +129,8 @@ type client struct {
 	readerDone   bool
 	idx          int
 	finSent      bool
+	steer        bool
+	steerDone    bool
 	rstLate      bool
 }
 
@@ -166,6 +168,43 @@ func (c *client) next() *Seg {
 	case 2:
 		if c.idx < len(c.segs) {
 			p := c.segs[c.idx]
+			// checksum steering: re-cut the remaining data so that the next segment ends where
+			// the listener's ACK needs a second carry when its TCP checksum sum is folded
+			// (the acknowledgement number is the only field the client controls); otherwise
+			// send a full-size filler segment and look again from there
+			if c.steer && c.established && !c.steerDone {
+				var rest []byte
+				for _, q := range c.segs[c.idx:] {
+					rest = append(rest, q...)
+				}
+				win := len(rest)
+				if win > 1460 {
+					win = 1460
+				}
+				L := 0
+				for l := 1; l <= win; l++ {
+					if ackNeedsDoubleCarry(c, uint32(l)) {
+						L = l
+						break
+					}
+				}
+				if L > 0 {
+					steered++
+					c.steerDone = true
+				} else {
+					L = win
+				}
+				c.segs = c.segs[:c.idx]
+				c.segs = append(c.segs, hx.B(rest[:L]))
+				for off := L; off < len(rest); off += 1460 {
+					end := off + 1460
+					if end > len(rest) {
+						end = len(rest)
+					}
+					c.segs = append(c.segs, hx.B(rest[off:end]))
+				}
+				p = c.segs[c.idx]
+			}
 			fl := fACK
 			if c.pshLast && c.idx == len(c.segs)-1 {
 				fl |= fPSH
@@ -207,7 +246,31 @@ func parseOut(fr []byte) (flags int, seq, ack uint32, ipid int, ok bool) {
 	return int(fr[47]), binary.BigEndian.Uint32(fr[38:42]), binary.BigEndian.Uint32(fr[42:46]), int(binary.BigEndian.Uint16(fr[18:20])), true
 }
 
-var removed, removedWhileOthersActive int
+var removed, removedWhileOthersActive, steered int
+
+// the 16-bit one's-complement sum of the ACK the listener will send for a data segment of
+// length L needs two carries when folded (a single fold leaves a value above 0xffff)
+func ackNeedsDoubleCarry(c *client, L uint32) bool {
+	ack := c.isn + 1 + c.sent + L
+	seq := c.srvSeq
+	var s uint32
+	add16 := func(v uint32) { s += v & 0xffff }
+	add16(uint32(me[0])<<8 | uint32(me[1]))
+	add16(uint32(me[2])<<8 | uint32(me[3]))
+	add16(uint32(c.sip[0])<<8 | uint32(c.sip[1]))
+	add16(uint32(c.sip[2])<<8 | uint32(c.sip[3]))
+	s += 6 + 20
+	add16(uint32(c.dport))
+	add16(uint32(c.sport))
+	add16(seq >> 16)
+	add16(seq)
+	add16(ack >> 16)
+	add16(ack)
+	add16(0x5010)
+	add16(65535)
+	s1 := (s >> 16) + (s & 0xffff)
+	return s1 > 0xffff
+}
 
 func runCase(r *hx.Rand, nconn int, tier string) ([]Step, string) {
 	cap := &capture{}
@@ -270,6 +333,22 @@ func runCase(r *hx.Rand, nconn int, tier string) ([]Step, string) {
 		c.badAck = r.Chance(1, 15)
 		c.rstEarly = r.Chance(1, 20)
 		c.rstLate = r.Chance(1, 2)
+		c.steer = r.Chance(1, 2)
+		if c.steer {
+			var all []byte
+			for _, q := range c.segs {
+				all = append(all, q...)
+			}
+			all = append(all, r.Bytes(4000-len(all))...)
+			c.segs = nil
+			for off := 0; off < len(all); off += 1460 {
+				end := off + 1460
+				if end > len(all) {
+					end = len(all)
+				}
+				c.segs = append(c.segs, hx.B(all[off:end]))
+			}
+		}
 		clients = append(clients, c)
 		arp = append(arp, canary.ARPEntry{IP: net.IPv4(c.sip[0], c.sip[1], c.sip[2], c.sip[3]), HardwareAddress: macOf(c.sip), Interface: "lo"})
 	}
@@ -449,6 +528,138 @@ func coqCase(id int, steps []Step) string {
 	return fmt.Sprintf("mkCase %s [0;0;0;0;0;0]%%N [127;0;0;1]%%N %s %s", hx.CoqN(uint64(id)), hx.CoqList(ops, "op"), hx.CoqList(obs, "sobs"))
 }
 
+// ---- decoded ports: observation only ----
+type DecIn struct {
+	SIP     [4]byte `json:"sip"`
+	SPort   int     `json:"sport"`
+	DPort   int     `json:"dport"`
+	ISN     uint32  `json:"isn"`
+	Payload hx.B    `json:"payload"`
+}
+
+type DecEv struct {
+	SIP, DIP     string
+	SPort, DPort int
+	HasPayload   bool
+	Payload      hx.B
+}
+
+var httpDecoded = map[int]bool{80: true, 9200: true}
+
+func runDecoded(in DecIn) ([]DecEv, string) {
+	cap := &capture{}
+	arp := canary.ARPCache{{IP: net.IPv4(in.SIP[0], in.SIP[1], in.SIP[2], in.SIP[3]), HardwareAddress: macOf(in.SIP), Interface: "lo"}}
+	v, err := canary.NewVerifCanary("lo", arp, nil, cap)
+	if err != nil {
+		hx.Fatal("NewVerifCanary: %v", err)
+	}
+	defer v.Close()
+	ctx, cancel := context.WithCancel(context.Background())
+	defer cancel()
+	v.StartKnockDetector(ctx)
+	var crash string
+	inject := func(s Seg) {
+		defer func() {
+			if rec := recover(); rec != nil {
+				crash = fmt.Sprint("panic in handleTCP: ", rec)
+			}
+		}()
+		v.Inject(buildFrame(s))
+	}
+	inject(Seg{SIP: in.SIP, DIP: me, SPort: in.SPort, DPort: in.DPort, Seq: in.ISN, Flags: fSYN})
+	var srv uint32
+	for _, f := range v.DrainTx() {
+		if fl, seq, _, _, ok := parseOut(f); ok && fl == fSYN|fACK {
+			srv = seq + 1
+		}
+	}
+	inject(Seg{SIP: in.SIP, DIP: me, SPort: in.SPort, DPort: in.DPort, Seq: in.ISN + 1, Ack: srv, Flags: fACK})
+	time.Sleep(2 * time.Millisecond)
+	inject(Seg{SIP: in.SIP, DIP: me, SPort: in.SPort, DPort: in.DPort, Seq: in.ISN + 1, Ack: srv, Flags: fACK | fPSH, Payload: in.Payload})
+	if crash != "" {
+		return nil, crash
+	}
+	var out []DecEv
+	deadline := time.Now().Add(1500 * time.Millisecond)
+	for time.Now().Before(deadline) && len(out) == 0 {
+		for _, e := range cap.take() {
+			m := event.ToMap(e)
+			if _, ok := m["source-port"]; !ok {
+				continue
+			}
+			if fmt.Sprint(m["category"]) == "portscan" {
+				continue
+			}
+			d := DecEv{SIP: fmt.Sprint(m["source-ip"]), DIP: fmt.Sprint(m["destination-ip"]), SPort: toInt(m["source-port"]), DPort: toInt(m["destination-port"])}
+			if p, ok := m["payload"].(string); ok {
+				d.HasPayload = true
+				d.Payload = hx.B(p)
+			}
+			out = append(out, d)
+		}
+		time.Sleep(300 * time.Microsecond)
+	}
+	v.DrainTx()
+	return out, ""
+}
+
+func coqDecCase(id int, in DecIn, evs []DecEv) string {
+	var es []string
+	for _, e := range evs {
+		es = append(es, fmt.Sprintf("mkDev %s %s %s %s %s %s", coqIPs(e.SIP), coqIPs(e.DIP), hx.CoqZ(int64(e.SPort)), hx.CoqZ(int64(e.DPort)), hx.CoqBool(e.HasPayload), hx.CoqBytes(e.Payload)))
+	}
+	return fmt.Sprintf("mkCase %s %s %s %s %s %s %s %s %s", hx.CoqN(uint64(id)), coqIP(in.SIP), coqIP(me), hx.CoqZ(int64(in.SPort)), hx.CoqZ(int64(in.DPort)),
+		hx.CoqBytes(in.Payload), hx.CoqBytes(in.Payload), hx.CoqBool(httpDecoded[in.DPort]), hx.CoqList(es, "dev"))
+}
+
+func decodedPart(o hx.Opts, r *hx.Rand) {
+	ports := []int{23, 80, 443, 139, 445, 1433, 6379, 9200}
+	rounds := 2
+	if o.Tier != "quick" {
+		rounds = 12
+	}
+	var ins []DecIn
+	for k := 0; k < rounds; k++ {
+		for _, p := range ports {
+			in := DecIn{SIP: [4]byte{10, 9, byte(r.Range(0, 3)), byte(r.Range(1, 250))}, SPort: r.Range(1024, 65535), DPort: p, ISN: uint32(r.U64())}
+			switch {
+			case httpDecoded[p]:
+				in.Payload = hx.B(fmt.Sprintf("GET /%d HTTP/1.1\r\nHost: sensor\r\nUser-Agent: probe\r\n\r\n", r.Intn(1000)))
+			case p == 443:
+				in.Payload = append(hx.B{0x16, 0x03, 0x01, 0x00, 0x2f, 0x01, 0x00, 0x00, 0x2b, 0x03, 0x03}, r.Bytes(r.Range(20, 200))...)
+			default:
+				in.Payload = hx.B(r.Bytes(r.Range(8, 300)))
+			}
+			ins = append(ins, in)
+		}
+	}
+	type res struct {
+		evs   []DecEv
+		crash string
+	}
+	out := make([]res, len(ins))
+	var wg sync.WaitGroup
+	sem := make(chan struct{}, 8)
+	for i := range ins {
+		wg.Add(1)
+		sem <- struct{}{}
+		go func(i int) {
+			defer wg.Done()
+			defer func() { <-sem }()
+			out[i].evs, out[i].crash = runDecoded(ins[i])
+		}(i)
+	}
+	wg.Wait()
+	dist := map[string]int{}
+	var cases []hx.Case
+	for i, in := range ins {
+		dist[fmt.Sprintf("dport:%d", in.DPort)]++
+		dist[fmt.Sprintf("events:%d", len(out[i].evs))]++
+		cases = append(cases, hx.Case{ID: i, Kind: "decoded", Input: in, Obs: out[i].evs, Crash: out[i].crash, Coq: coqDecCase(i, in, out[i].evs)})
+	}
+	hx.Write(o, "C14", "dec", "From HT Require Import Common.Bytes C14.CheckDec.", "case", cases, dist, nil, 200)
+}
+
 func main() {
 	o := hx.ParseArgs()
 	r := hx.NewRand(o.Seed)
@@ -468,6 +679,8 @@ func main() {
 		}
 		cases = append(cases, hx.Case{ID: i, Kind: "tcp", Input: steps, Obs: nil, Crash: crash, Coq: coqCase(i, steps)})
 	}
+	decodedPart(o, r)
+	dist["checksum-steered-segments"] = steered
 	dist["state-removed"] = removed
 	dist["state-removed-while-others-active"] = removedWhileOthersActive
 	hx.Write(o, "C14", "tcp", "From HT Require Import Common.Bytes C14.Model C14.Check.", "case", cases, dist, nil, 40)
